@@ -181,6 +181,7 @@ func check(c *core.Ctx, f map[string][]string) {
 		}
 	}
 	k := mk(f)
+	c.Note(func() interface{} { return k })
 	if nontriv {
 		c.DistinctS(util.JSON(k))
 	}
